@@ -28,6 +28,9 @@ INSTANCES = {
     "tut13r": ("normal..tutorial1,normal..tutorial3", "net1 net5", True),          # net5 excludes vm1=CentOS
     "tut13c": ("normal..tutorial1,normal..tutorial3", "cluster1.net6 cluster1.net7 cluster2.net6", True),   # remote spawner, two clusters
     "guic": ("leaves..tutorial_gui", "cluster1.net6 cluster2.net6", True),
+    # a producer of a removable state and its dependant both selected as leaves (different workers take them first)
+    "guigetx2": ("leaves..tutorial_gui.client_noop,leaves..tutorial_get.explicit_noop", "net1 net2", True),
+    "guigetx3": ("leaves..tutorial_gui,leaves..tutorial_get.explicit_noop,leaves..tutorial_get.explicit_clicked", "net1 net2 net3", True),
     "tut1c": ("normal..tutorial1", "cluster1.net6 cluster1.net7 cluster2.net6 cluster2.net7", True),
 }
 
